@@ -98,7 +98,9 @@ def opsTreemapCodec : Handler := fun st toks =>
     | none => pure (st, specMark "panic" (show_ (decide (total.length ≤ k)) (total.take k)))
   | ["tserde_events", d] => do
     let (_, sl) ← t? d
-    let evs := Serde.tserEvents sl.m
+    match Serde.tserEventsM st.dbg sl.m with
+    | none => pure (st, "panic")
+    | some evs =>
     let bs := evs.flatMap fun e => match e with
       | .bytes b => b
       | .other _ => []
@@ -106,19 +108,24 @@ def opsTreemapCodec : Handler := fun st toks =>
     -- SPEC: they are the reference encoding of the set
     let line (same : Bool) (bs : List Nat) :=
       s!"calls={",".intercalate (evs.map Serde.Event.method)} n={bs.length} sh={hex64 (fnv bs)} same={showBool same}"
-    pure (st, specMark (line (bs == Treemap.serialize sl.m) bs) (line true (Spec.encode64 sl.s)))
+    pure (st, specMark (line (some bs == Treemap.serializeM st.dbg sl.m) bs) (line true (Spec.encode64 sl.s)))
   | ["tserde_visit", kind, d, src] => do
     let i ← parseTSlot 't' d
     -- the byte string: literal `hex:…`, or `ser:tN` = the serialisation of slot `tN`
-    let (bytes, orig) ← (if src.startsWith "ser:" then
-        (t? (src.drop 4).toString).map fun (_, sl) => (Treemap.serialize sl.m, some sl.s)
-      else (parseHex src).map fun bs => (bs, none) : Option (List Nat × Option (List Nat)))
-    let inp ← (match kind with
-      | "bytes" => some (Serde.Input.bytes bytes)
-      | "borrowed" => some (Serde.Input.borrowedBytes bytes)
-      | "buf" => some (Serde.Input.byteBuf bytes)
-      | "seq" => some (Serde.Input.seq bytes)
-      | _ => none : Option Serde.Input)
+    let (bytes?, orig) ← (if src.startsWith "ser:" then
+        (t? (src.drop 4).toString).map fun (_, sl) => (Treemap.serializeM st.dbg sl.m, some sl.s)
+      else (parseHex src).map fun bs => (some bs, none) : Option (Option (List Nat) × Option (List Nat)))
+    -- (the delivery kind is parsed before the source is serialised, as in the harness)
+    let mkInp ← (match kind with
+      | "bytes" => some Serde.Input.bytes
+      | "borrowed" => some Serde.Input.borrowedBytes
+      | "buf" => some Serde.Input.byteBuf
+      | "seq" => some Serde.Input.seq
+      | _ => none : Option (List Nat → Serde.Input))
+    match bytes? with
+    | none => pure (st, "panic")       -- `serialize_into` of the source slot panicked
+    | some bytes =>
+    let inp := mkInp bytes
     -- SPEC: the serialisation of a value decodes to an equal value (`ok`, same set); a conformant literal
     -- stream decodes to its set
     let q : Option (List Nat) := match orig with
